@@ -6,6 +6,7 @@ import BqlVerif.Model.Pivot
 import Driver.CursorOps
 import Driver.NumberifyOps
 import Driver.FuncOps
+import Driver.InvOps
 namespace Bql
 
 def showDesc (d : List (String × Ty)) : String :=
@@ -57,6 +58,10 @@ def handle (st : DState) (sx : Sexp) : DState × String :=
   | .list (.atom "fn" :: _) => (st, (handleFn sx).getD "bad-op")
   | .list (.atom "fnmap" :: _) => (st, (handleFn sx).getD "bad-op")
   | .list (.atom "fndates" :: _) => (st, (handleFn sx).getD "bad-op")
+  | .list (.atom "invsum" :: _) => (st, (handleInv sx).getD "bad-op")
+  | .list (.atom "invunits" :: _) => (st, (handleInv sx).getD "bad-op")
+  | .list (.atom "invcost" :: _) => (st, (handleInv sx).getD "bad-op")
+  | .list (.atom "balance" :: _) => (st, (handleInv sx).getD "bad-op")
   | .list (.atom "numberify" :: _) => (st, (handleNumberify sx).getD "bad-op")
   | .list (.atom "cursor" :: _) => (st, (handleCursor sx).getD "bad-op")
   | .list [.atom "modelled-functions"] => (st, " ".intercalate modelledFunctions)
